@@ -244,9 +244,20 @@ class Exec:
         elif k == "time_course":
             sim.simulate_time_course(self._points_arg(op))
         elif k == "protocol":
-            sim.simulate_protocol(_steps_to_protocol(op["steps"]), time_points_per_step=op.get("tpps", 10))
+            sim.simulate_protocol(self._protocol_arg(op), time_points_per_step=op.get("tpps", 10))
         else:
-            sim.simulate_protocol_time_course(_steps_to_protocol(op["steps"]), self._points_arg(op), time_points_as_relative=bool(op.get("relative")))
+            sim.simulate_protocol_time_course(self._protocol_arg(op), self._points_arg(op), time_points_as_relative=bool(op.get("relative")))
+
+    def _protocol_arg(self, op: dict):  # noqa: ANN202
+        """A fresh protocol table, or ONE table object the caller keeps and passes again."""
+        if op.get("proto"):
+            key = (op["proto"], digest_of(op["steps"]))
+            if key not in self.arrays:
+                self.arrays[key] = (_steps_to_protocol(op["steps"]), None)
+            else:
+                self.counters["probe:caller_protocol_passed_again"] += 1
+            return self.arrays[key][0]
+        return _steps_to_protocol(op["steps"])
 
     def _segment(self, op: dict) -> None:  # noqa: C901, PLR0912, PLR0915
         ref = self.ref
@@ -503,6 +514,8 @@ class Gen:
 
     def protocol_steps(self) -> list:
         r = self.rng("protocol")
+        if self.kept.get("__proto__") and r.random() < 0.3:
+            return copy.deepcopy(self.kept["__proto__"])  # the caller runs the same protocol again
         n = r.randint(1, 4)
         names = r.sample(self.pnames, min(len(self.pnames), r.randint(1, 2)))
         steps = []
@@ -511,6 +524,7 @@ class Gen:
                 # a step names only the parameters it changes (its own sub-check)
                 names = r.sample(self.pnames, r.randint(1, len(self.pnames)))
             steps.append([r.choice([0.25, 0.5, 1.0, 1.5, 2.0, 3.0]), {nm: self.pval(nm) for nm in names}])
+        self.kept["__proto__"] = copy.deepcopy(steps)
         return steps
 
     def op(self, kind: str, T: float) -> dict:  # noqa: C901, N803, PLR0911, PLR0912
@@ -550,7 +564,10 @@ class Gen:
                 op["as"] = r.choice(["list", "index"])
             return op
         if kind == "protocol":
-            return {"op": "protocol", "steps": self.protocol_steps(), "tpps": r.choice([1, 2, 3, 10])}
+            op = {"op": "protocol", "steps": self.protocol_steps(), "tpps": r.choice([1, 2, 3, 10])}
+            if r.random() < 0.5:
+                op["proto"] = "P"
+            return op
         if kind == "protocol_tc":
             steps = self.protocol_steps()
             total = sum(s[0] for s in steps)
@@ -564,6 +581,8 @@ class Gen:
                 if pts[-1] + (T if rel else 0.0) <= T:
                     pts.append(pts[-1] + 0.5 + (0.0 if rel else 0.0) + (T - pts[-1] if not rel and pts[-1] < T else 0.0))
             op = {"op": "protocol_tc", "steps": steps, "points": pts, "relative": rel}
+            if r.random() < 0.5:
+                op["proto"] = "P"
             if T >= 100 and r.random() < 0.7:
                 # requested points hugging a step boundary (1/128 away), at a large clock
                 acc, extra = (0.0 if rel else T), []
